@@ -249,7 +249,7 @@ impl Ctx {
         let mut st = self.stats.lock().unwrap();
         *st.known_hits.entry(key.to_string()).or_insert(0) += 1;
         if st.known_printed.insert(key.to_string()) {
-            println!("KNOWN-FINDING: property={} {} [{}]", self.id, what, key);
+            outln!("KNOWN-FINDING: property={} {} [{}]", self.id, what, key);
         }
     }
 
@@ -267,9 +267,13 @@ impl Ctx {
             }
         }
         let p = path.display().to_string();
-        println!("VIOLATION property={} replay={}", self.id, p);
-        println!("  sub-check: {}   reason: {}", sub, reason);
-        self.violations.lock().unwrap().push((p, reason.to_string()));
+        let mut v = self.violations.lock().unwrap();
+        if v.is_empty() || self.replay_mode {
+            // one VIOLATION line per run is enough (concurrent workers may find the same defect several times)
+            outln!("VIOLATION property={} replay={}", self.id, p);
+            outln!("  sub-check: {}   reason: {}", sub, reason);
+        }
+        v.push((p, reason.to_string()));
     }
 
     /// a case did not finish within hang_limit: the process cannot continue (the stuck thread cannot be killed)
@@ -551,4 +555,99 @@ pub fn fixed_cases(id: &str) -> Vec<(PathBuf, String, Value)> {
         }
     }
     out
+}
+
+// -------------------------------------------------------------------------------------------------
+// child processes
+
+pub enum ChildOutcome {
+    Done(Value),
+    /// abnormal termination: (description, tail of stderr)
+    Crashed(String, String),
+    Timeout,
+    Infra(String),
+}
+
+static CHILD_SEQ: std::sync::atomic::AtomicU64 = std::sync::atomic::AtomicU64::new(0);
+
+/// re-invoke this binary as `child <mode> <in> <out>`; stdout is discarded, stderr kept for diagnostics
+pub fn run_child(mode: &str, input: &Value, timeout: std::time::Duration, env: &[(&str, &str)]) -> ChildOutcome {
+    let exe = match std::env::var("PMH_VERIF_CHILD_EXE").ok().map(PathBuf::from).or_else(|| std::env::current_exe().ok()) {
+        Some(e) => e,
+        None => return ChildOutcome::Infra("cannot locate own executable".into()),
+    };
+    run_child_exe(&exe, mode, input, timeout, env)
+}
+
+pub fn run_child_exe(exe: &std::path::Path, mode: &str, input: &Value, timeout: std::time::Duration, env: &[(&str, &str)]) -> ChildOutcome {
+    let dir = verif_root().join("scratch");
+    let _ = std::fs::create_dir_all(&dir);
+    let n = CHILD_SEQ.fetch_add(1, Ordering::Relaxed);
+    let base = dir.join(format!("child-{}-{}", std::process::id(), n));
+    let (pin, pout, perr) = (base.with_extension("in.json"), base.with_extension("out.json"), base.with_extension("err.txt"));
+    let cleanup = || {
+        let _ = std::fs::remove_file(&pin);
+        let _ = std::fs::remove_file(&pout);
+        let _ = std::fs::remove_file(&perr);
+    };
+    if std::fs::write(&pin, serde_json::to_string(input).unwrap()).is_err() {
+        return ChildOutcome::Infra("cannot write child input".into());
+    }
+    let errf = match std::fs::File::create(&perr) {
+        Ok(f) => f,
+        Err(e) => return ChildOutcome::Infra(format!("cannot create {}: {}", perr.display(), e)),
+    };
+    let mut cmd = std::process::Command::new(exe);
+    cmd.arg("child").arg(mode).arg(&pin).arg(&pout).stdin(std::process::Stdio::null()).stdout(std::process::Stdio::null()).stderr(errf);
+    for (k, v) in env {
+        cmd.env(k, v);
+    }
+    let mut ch = match cmd.spawn() {
+        Ok(c) => c,
+        Err(e) => {
+            cleanup();
+            return ChildOutcome::Infra(format!("cannot spawn {}: {}", exe.display(), e));
+        }
+    };
+    let t0 = Instant::now();
+    let status = loop {
+        match ch.try_wait() {
+            Ok(Some(st)) => break st,
+            Ok(None) => {
+                if t0.elapsed() > timeout {
+                    let _ = ch.kill();
+                    let _ = ch.wait();
+                    cleanup();
+                    return ChildOutcome::Timeout;
+                }
+                std::thread::sleep(std::time::Duration::from_millis(5));
+            }
+            Err(e) => {
+                cleanup();
+                return ChildOutcome::Infra(format!("wait failed: {}", e));
+            }
+        }
+    };
+    let err_tail = std::fs::read_to_string(&perr).unwrap_or_default();
+    let err_tail: String = err_tail.chars().rev().take(1500).collect::<String>().chars().rev().collect();
+    let res = if status.success() {
+        match std::fs::read_to_string(&pout).ok().and_then(|s| serde_json::from_str::<Value>(&s).ok()) {
+            Some(v) => ChildOutcome::Done(v),
+            None => ChildOutcome::Infra("child exited 0 without output".into()),
+        }
+    } else {
+        use std::os::unix::process::ExitStatusExt;
+        let what = match (status.code(), status.signal()) {
+            (Some(2), _) => {
+                cleanup();
+                return ChildOutcome::Infra(format!("child reported an infrastructure error: {}", err_tail));
+            }
+            (Some(c), _) => format!("exit code {}", c),
+            (None, Some(s)) => format!("killed by signal {}", s),
+            _ => "unknown status".to_string(),
+        };
+        ChildOutcome::Crashed(what, err_tail)
+    };
+    cleanup();
+    res
 }
